@@ -585,8 +585,9 @@ class Namer:
         assert isinstance(let, QConstant)
         if let.name is not None:
             return let.name
+        # lets and registers share one namespace
         name, self.next_let = self._choose_name(
-            self.let_template, self.next_let, self.let_names
+            self.let_template, self.next_let, self.let_names + self.register_names
         )
         return name
 
@@ -595,7 +596,9 @@ class Namer:
         if register.name is not None:
             return register.name
         name, self.next_register = self._choose_name(
-            self.register_template, self.next_register, self.register_names
+            self.register_template,
+            self.next_register,
+            self.let_names + self.register_names,
         )
         return name
 
